@@ -2405,8 +2405,8 @@ def ref_inner_names(locals_, outer_local):
 def _wrapper_on_cycle(a):
     """C07-wrapper-field-drops-circular-flag, read off the SOURCE (xsd kind): some complex type T has a
     required single element whose class (a schema type without attributes / base, or an anonymous type)
-    holds exactly one required element of a complex type D, and D leads back to T through element types
-    or base types. (Then DetectCircularReferences, which runs before CreateWrapperFields, has judged the
+    holds exactly one required element of a complex type D, and D leads back to T through element types,
+    base types or the type of a global element (a class that extends its type). (Then DetectCircularReferences, which runs before CreateWrapperFields, has judged the
     reference T -> wrapper class; the wrapped field T -> D is a copy of the wrapper's attr, whose flag
     belongs to another class.)"""
     if a.get("kind") != "xsd" or not a.get("opts", {}).get("wrapper"):
@@ -2424,11 +2424,19 @@ def _wrapper_on_cycle(a):
                 out.add(e[1])
         return out
 
+    # a global element is a class of its own that extends its type; when a complexType has the same name, a
+    # reference to that name may be resolved to either class (RenameDuplicateClasses tells them apart only
+    # afterwards): the references of both count for that name
+    el_types = {}
+    for e in a["spec"]["elements"]:
+        el_types.setdefault(e["name"], set()).add(e["type"])
+
     def succ(name):
         t = types.get(name)
-        if not t:
-            return set()
-        return refs(t["elements"]) | ({t["base"]} if t.get("base") else set())
+        out = set(el_types.get(name, ()))
+        if t:
+            out |= refs(t["elements"]) | ({t["base"]} if t.get("base") else set())
+        return out
 
     def reaches(src, dst):
         seen, todo = set(), [src]
@@ -2649,6 +2657,9 @@ def gen_pipeline(rng, tier):
     yield xsd([ty("X", [["a1", None, [["n", "N", None, "+"]], "1"]]), ty("N", [["x", "X"]])], [{"name": "r", "type": "X"}], wrapper=True, unnest=True)
     yield xsd([ty("X", [["a1", None, [["n", "N", None, "+"]], "1"]]), ty("N", [["x", "X"]])], [{"name": "r", "type": "X"}], wrapper=True)
     yield xsd([ty("W", [["n", "N", None, "1"]]), ty("X", [["a1", "W", None, "1"]]), ty("N", [["x", "X", None, "*"]])], [{"name": "r", "type": "X"}], wrapper=True)
+    # ... the cycle closes through a global element named like a complexType (the element's class extends `value`)
+    yield xsd([ty("value", [["type", None, [["Any", "Node", None, "+"]], "1"]]), ty("Node", [["Any", "é"]]), ty("é", [["type", "é", None, "1"], "str"])],
+              [{"name": "é", "type": "value"}], wrapper=True, unnest=True)
     # samples: every element class is a root-level class
     yield {"kind": "xml", "doc": "<root><items><item>a</item><item>b</item></items><item>1</item></root>", "opts": {"wrapper": True}}
     yield {"kind": "xml", "doc": "<root><Item>1</Item><items><item>a</item><item>b</item></items></root>", "opts": {"wrapper": True}}
